@@ -141,7 +141,7 @@ theorem intInRange_toInt (t : DType) (w : Nat) (h : w < wordBound t) : intInRang
 theorem clipData_default' (t : DType) (rows : List (List Nat)) : clipData t none none rows = rows := by
   unfold clipData
   have hw : ∀ w, clipWord t none none w = w := by
-    intro w; unfold clipWord; cases t.kind <;> simp
+    intro w; unfold clipWord; cases t.kind <;> simp [clipLoF, clipHiF]
   have hr : ∀ r : List Nat, r.map (clipWord t none none) = r := by
     intro r
     calc r.map (clipWord t none none) = r.map id := List.map_congr_left (fun w _ => hw w)
@@ -185,7 +185,9 @@ theorem apply_other (s : Store) (a b : Handle) (ha : a.arr < s.length) (hb : b.a
   | fill w => simp only [SOp.apply]; exact ⟨read_set_ne _ _ _ _ hne, by simpa using ha, by simpa using hb, hne⟩
   | setData rows =>
     simp only [SOp.apply]
-    exact ⟨read_append _ _ _ ha, by simp; omega, by simp, by omega⟩
+    split
+    · exact ⟨read_append _ _ _ ha, by simp; omega, by simp, by simp; omega⟩
+    · exact ⟨rfl, ha, hb, hne⟩
 
 theorem applyAll_other (ops : List SOp) : ∀ (s : Store) (a b : Handle), a.arr < s.length → b.arr < s.length →
     a.arr ≠ b.arr → (applyAll s b ops).1.read a = s.read a := by
